@@ -17,7 +17,8 @@ RULE = ("cases: op x operand shapes (rank 0-4(5), size-1 dims over-represented, 
         " Also: memory layouts, nn.Parameter operands, scaled magnitudes, float16 means over long reductions, Python scalars with integer/bool tensors, synapgrad.slice functional form, and an enumerated grid of every dim argument for ranks <= 3 (quick) / 4 (thorough)."
         " Round 4: reflected operators (list @ t, t @ list, scalar op t) with closed-form gradients, operands with a zero-length dimension (forward = NumPy), 0-d tensors with dim 0/-1, NumPy-integer dims, dim=(), addmm with batched factors / larger x1."
         " Round 5: integer tensors as divisors and as bases of negative powers (refuse, or the real quotient)."
-        " Round 6: reductions over int8/uint8/int16/int32/int64/bool tensors; NumPy-scalar operands (np.float64/np.float32/np.int64) of tensor-scalar arithmetic.")
+        " Round 6: reductions over int8/uint8/int16/int32/int64/bool tensors; NumPy-scalar operands (np.float64/np.float32/np.int64) of tensor-scalar arithmetic."
+        " Round 7: arange with decimal bounds whose element count changes under float32-rounded bounds (count exact, values at 4 eps).")
 ASSUMPTIONS = ["NumPy is the definition of broadcasting/indexing semantics; PyTorch semantics for squeeze/flatten/"
                "unfold/movedim are transcribed in synverif/ops.py references",
                "float32 tolerance 2e-5*scale, float64 1e-12*scale for arithmetic; bit-exact for data movement"]
